@@ -205,9 +205,13 @@ func runC14Hist(r *fw.Run, h *c14Hist) []string {
 	}
 	lr.svc = svc
 	log := newEvLog(r)
-	svc.RegisterInterface(&ScriptDisp{Name: "org.example.script", Desc: defaultDesc("org.example.script"), Log: log})
 	L := newCtlListener(r)
 	lr.L = L
+	svc.RegisterInterface(&ScriptDisp{Name: "org.example.script", Desc: defaultDesc("org.example.script"), Log: log, Hook: func(name string) {
+		if name == "shutdown" {
+			lr.shutdown()
+		}
+	}})
 	svc.VerifSetListener(L)
 	lr.ctx, lr.cancel = context.WithCancel(context.Background())
 	defer lr.cancel()
@@ -287,6 +291,42 @@ func runC14Hist(r *fw.Run, h *c14Hist) []string {
 					lr.fail("accepted-connection-not-served", "connection %d was accepted around Shutdown (%s) but a call on it failed: %v", c.id, final, err)
 				}
 			}
+		}
+	case "sd-in-handler":
+		// Shutdown is called by a handler while it is answering a call on an open connection
+		var c *CtlConn
+		if len(lr.open) > 0 && !cancelled {
+			c = lr.open[len(lr.open)-1]
+		} else if !cancelled {
+			if c = lr.connect(true); c != nil {
+				lr.open = append(lr.open, c)
+			}
+		}
+		if c == nil {
+			L.WaitParked(lifeBound)
+			lr.shutdown()
+			break
+		}
+		c.client.SetDeadline(time.Now().Add(lifeBound))
+		c.client.Write([]byte(`{"method":"org.example.script.Stop","parameters":{"id":"stop","steps":[{"op":"hook","name":"shutdown"},{"op":"reply"}]}}` + "\x00"))
+		buf := make([]byte, 0, 256)
+		tmp := make([]byte, 256)
+		gotReply := false
+		for !gotReply {
+			n, err := c.client.Read(tmp)
+			buf = append(buf, tmp[:n]...)
+			for _, b := range tmp[:n] {
+				if b == 0 {
+					gotReply = true
+				}
+			}
+			if err != nil {
+				break
+			}
+		}
+		c.client.SetDeadline(time.Time{})
+		if !gotReply {
+			lr.fail("shutdown-from-handler", "a handler called Shutdown and then replied; the reply did not arrive within %v (got %q)", lifeBound, clip(string(buf), 100))
 		}
 	case "sd-async":
 		var wg sync.WaitGroup
@@ -423,6 +463,48 @@ func runC14Hist(r *fw.Run, h *c14Hist) []string {
 		}
 	case <-time.After(20 * time.Second):
 		lr.fail("serve-never-returns", "the second serving call of the same object did not return within 20 s after Shutdown")
+		return lr.viol
+	}
+	if len(lr.viol) > 0 || len(h.Steps)%3 != 0 {
+		return lr.viol
+	}
+	// a third period, this time through Listen (which binds itself), on the same object
+	p3 := filepath.Join(r.WorkDir, fmt.Sprintf("rb3-%d", r.Seq()))
+	ctx3, cancel3 := context.WithCancel(context.Background())
+	defer cancel3()
+	done3 := make(chan error, 1)
+	go func() { done3 <- svc.Listen(ctx3, "unix:"+p3, 0) }()
+	rerr = fmt.Errorf("not reached")
+	for try := 0; try < 4000 && rerr != nil; try++ {
+		select {
+		case e := <-done3:
+			done3 <- e
+			try = 4000
+			rerr = fmt.Errorf("Listen returned %v", e)
+			continue
+		default:
+		}
+		if c, err := net.DialTimeout("unix", p3, 2*time.Second); err == nil {
+			rerr = roundTrip(c, lifeBound)
+			c.Close()
+		} else {
+			rerr = err
+		}
+		if rerr != nil {
+			time.Sleep(200 * time.Microsecond)
+		}
+	}
+	if rerr != nil {
+		lr.fail("reserve-failed", "third serving period of the same object (Listen after DoListen twice) does not answer: %v", rerr)
+	}
+	svc.Shutdown()
+	select {
+	case err := <-done3:
+		if err != nil && rerr == nil {
+			lr.fail("serve-returned-error", "third serving call returned %v after Shutdown", err)
+		}
+	case <-time.After(20 * time.Second):
+		lr.fail("serve-never-returns", "the third serving call of the same object did not return within 20 s after Shutdown")
 	}
 	return lr.viol
 }
@@ -486,7 +568,7 @@ func c14BeforeServe(r *fw.Run, timeout, race bool) []string {
 // ---- history enumeration -------------------------------------------------------------------------
 
 var c14Prefix = []string{"connect", "call", "close", "abort", "fail", "cancel", "bind2", "listen2"}
-var c14Finals = []string{"sd-parked", "sd-before-accept", "sd-accept-return", "sd-async"}
+var c14Finals = []string{"sd-parked", "sd-before-accept", "sd-accept-return", "sd-async", "sd-in-handler"}
 
 func c14Valid(steps []string) bool {
 	open, total, cancelled, b2, l2 := 0, 0, false, 0, 0
